@@ -50,9 +50,10 @@ PLANS = {
     "C11": {"quick": [("env", "plain", 200, 10, ["--levels", "1,2,5,10,24"]), ("menv", "plain", 200, 10, ["--levels", "1,3,10"])],
             "thorough": [("env", "plain", 5000, 30, ["--levels", "1,2,5,10,24"]), ("menv", "plain", 4000, 30, ["--levels", "1,3,10"]),
                          ("menv", "toggle", 1000, 20, [])]},
-    "C12": {"quick": [("book", "malformed", 400, 50, []), ("book", "disciplined", 100, 50, []),
+    "C12": {"quick": [("book", "malformed", 400, 50, []), ("book", "disciplined", 100, 50, []), ("book", "edge", 300, 50, ["--levels", "3,10"]),
                       ("market", "malformed", 100, 60, []), ("env", "malformed", 100, 6, []), ("menv", "malformed", 100, 6, [])],
             "thorough": [("book", "malformed", 10000, 100, []), ("book", "disciplined", 2000, 100, []), ("book", "wide", 1000, 100, []),
+                         ("book", "edge", 5000, 80, ["--levels", "1,3,10,24"]),
                          ("market", "malformed", 2000, 100, []), ("env", "malformed", 2000, 10, []), ("menv", "malformed", 2000, 10, [])]},
     "C13": {"quick": [("book", "toggle", 500, 60, []), ("market", "plain", 100, 80, []), ("env", "toggle", 100, 8, []),
                       ("menv", "toggle", 100, 8, [])],
@@ -341,7 +342,10 @@ def sample_histories(workdir, n=2, max_ops=14):
 
 def decide(prop, tier, seed, spec, verdict, workdir, pr, finds, stats, totals, streams, plans):
     a_finds = [f for f in finds if spec["a"](f)]
-    k_finds = [f for f in finds if spec["k"](f) and not spec["a"](f)]
+    # a crash of the harness or the driver is never ignored: whatever its cause, the histories behind it
+    # were not checked, so the correspondence is not established
+    infra = [f for f in finds if f.hid in ("harness", "driver", "protocol")]
+    k_finds = infra + [f for f in finds if spec["k"](f) and not spec["a"](f) and f not in infra]
     samples = sample_histories(workdir)
     reported = set()
     unattributed = []
